@@ -161,3 +161,14 @@ impl OsIpcReceiver {
         ensures *final(g) == old(g).push(OsRecv { ok: r is Ok, data: if r is Ok { r->Ok_0.0@ } else { Seq::empty() } })
     { unimplemented!() }
 }
+
+// `?` on a platform receive converts through these From impls (verified in unit U4b)
+impl From<UnixError> for IpcError {
+    #[verifier::external_body]
+    fn from(e: UnixError) -> (r: IpcError) ensures r == conv_ipc(e), (r is Disconnected) <==> (e is ChannelClosed) { unimplemented!() }
+}
+impl From<UnixError> for TryRecvError {
+    #[verifier::external_body]
+    fn from(e: UnixError) -> (r: TryRecvError)
+        ensures r == conv_try(e), (r matches TryRecvError::IpcError(IpcError::Disconnected)) <==> (e is ChannelClosed) { unimplemented!() }
+}
